@@ -5,6 +5,9 @@ package main
 
 import (
 	"bytes"
+	"crypto/hmac"
+	"crypto/sha256"
+	"encoding/base64"
 	"encoding/json"
 	"fmt"
 	"io"
@@ -23,6 +26,7 @@ import (
 	"github.com/jech/galene/conn"
 	"github.com/jech/galene/diskwriter"
 	"github.com/jech/galene/group"
+	"github.com/jech/galene/token"
 
 	"verif/harness/vclient"
 	"verif/harness/vk"
@@ -67,6 +71,7 @@ type driver struct {
 	batch  int
 	cur    input
 	wsN    int
+	tokN   int
 	failed int
 }
 
@@ -295,6 +300,27 @@ func (d *driver) send(in input) {
 		}
 	case "join-token":
 		result, _ = d.wsJoin(in.Group, "alice", "", in.S)
+	case "join-token-username":
+		// the username does not come from the join message but from inside a token: a
+		// stateful token stored with it, or the 'sub' of a signed JWT
+		tok := ""
+		if in.Enc == "stateful" {
+			d.tokN++
+			tok = fmt.Sprintf("tu-%d-%d", d.batch, d.tokN)
+			exp := time.Now().Add(time.Hour)
+			u := in.S
+			if _, err := token.Update(&token.Stateful{Token: tok, Group: in.Group, Username: &u, Permissions: []string{"present"}, Expires: &exp}, ""); err != nil {
+				result = "token-not-stored"
+				break
+			}
+		} else {
+			tok = signJWT(map[string]any{"sub": in.S, "aud": "https://galene.test/group/" + in.Group + "/", "permissions": []string{"present"},
+				"iat": time.Now().Add(-time.Minute).Unix(), "exp": time.Now().Add(time.Hour).Unix()})
+		}
+		result, _ = d.wsJoin(in.Group, "\x00none", "", tok)
+		if result == "join" && in.S != "" && !refValidName(in.S) {
+			d.violation("invalid-name-accepted:join-token-username:"+in.Enc+":"+refClass(in.S), fmt.Sprintf("a client joined with a %s token carrying the username %q, which the property says is rejected", in.Enc, in.S))
+		}
 	case "group-page":
 		status, resp = d.raw(method, "/group/"+enc+"/", hdr, nil)
 	case "group-status":
@@ -498,4 +524,15 @@ func serverChild() {
 	mark(0)
 	run.Count("server_runs_completed", 1)
 	os.Exit(0)
+}
+
+// signJWT builds an HS256 token signed with pubGroup's key.
+func signJWT(claims map[string]any) string {
+	enc := base64.RawURLEncoding
+	h := enc.EncodeToString([]byte(`{"alg":"HS256","typ":"JWT"}`))
+	b, _ := json.Marshal(claims)
+	body := h + "." + enc.EncodeToString(b)
+	mac := hmac.New(sha256.New, []byte(jwtSecret))
+	mac.Write([]byte(body))
+	return body + "." + enc.EncodeToString(mac.Sum(nil))
 }
